@@ -1,4 +1,4 @@
-//! C08 harness: program-account admission for discriminant widths 0,1,2,4,8,16.
+//! C08 harness: program-account admission for discriminant widths 0,1,2,3,4,8,12,16,24.
 use star_frame::account_set::{CanCloseAccount as _, TryFromAccounts as _};
 use star_frame::prelude::*;
 use vh::*;
@@ -26,6 +26,10 @@ prog!(m2, P2, A2, u16, 12, 0xBEEFu16);
 prog!(m4, P4, A4, u32, 14, 0xDEADBEEFu32);
 prog!(m8, P8, A8, [u8; 8], 18, [1, 2, 3, 4, 5, 6, 7, 8]);
 prog!(m16, P16, A16, [u8; 16], 26, [16, 15, 14, 13, 12, 11, 10, 9, 8, 7, 6, 5, 4, 3, 2, 1]);
+// widths the fast paths of validate_discriminant do not special-case (the generic arm): not a multiple of 8, and three words
+prog!(m3, P3, A3, [u8; 3], 43, [0x31, 0x32, 0x33]);
+prog!(m12, P12, A12, [u8; 12], 52, [12, 11, 10, 9, 8, 7, 6, 5, 4, 3, 2, 1]);
+prog!(m24, P24, A24, [u8; 24], 64, [1, 2, 3, 4, 5, 6, 7, 8, 9, 10, 11, 12, 13, 14, 15, 16, 17, 18, 19, 20, 21, 22, 23, 24]);
 // account types whose discriminant IS the all-0xFF pattern written by close_account
 prog!(m1f, P1F, A1F, u8, 31, 0xFFu8);
 prog!(m2f, P2F, A2F, u16, 32, 0xFFFFu16);
@@ -109,6 +113,9 @@ fn main() {
             4 => run::<A4>(c),
             8 => run::<A8>(c),
             16 => run::<A16>(c),
+            3 => run::<A3>(c),
+            12 => run::<A12>(c),
+            24 => run::<A24>(c),
             _ => vec![-2],
         };
         o.line(id, &obs);
